@@ -77,16 +77,16 @@ structure StateS (α : Type) where
 
 variable [Scalar α]
 
-/-! ## constructor (`LUDecomposition.h:161-209`) -/
+/-! ## constructor (`LUDecomposition.h:168-216`) -/
 
-/-- `LUDecomposition.h:178-185` -/
+/-- `LUDecomposition.h:185-192` -/
 def findPivotS (LU : Store α) (m k : Nat) : Res Nat :=
   loopFrom (k + 1) m (fun i p => do
     let a ← rd LU i k
     let b ← rd LU p k
     pure (if Scalar.gtb (numAbs a) (numAbs b) then i else p)) k
 
-/-- `LUDecomposition.h:189-192`: `t = LU(p,j); LU(p,j) = LU(k,j); LU(k,j) = t` -/
+/-- `LUDecomposition.h:196-199`: `t = LU(p,j); LU(p,j) = LU(k,j); LU(k,j) = t` -/
 def swapRowsS (LU : Store α) (n p k : Nat) : Res (Store α) :=
   loop n (fun j LU => do
     let t ← rd LU p j
@@ -94,14 +94,14 @@ def swapRowsS (LU : Store α) (n p k : Nat) : Res (Store α) :=
     let LU1 ← wr LU p j u
     wr LU1 k j t) LU
 
-/-- `LUDecomposition.h:193`: `t = piv[p]; piv[p] = piv[k]; piv[k] = t` -/
+/-- `LUDecomposition.h:200`: `t = piv[p]; piv[p] = piv[k]; piv[k] = t` -/
 def swapPivS (piv : Array Nat) (p k : Nat) : Res (Array Nat) := do
   let t ← vrd piv p
   let u ← vrd piv k
   let piv1 ← vwr piv p u
   vwr piv1 k t
 
-/-- `LUDecomposition.h:202-205`: `for j in k+1..n-1: LU(i,j) -= LU(i,k) * LU(k,j)` -/
+/-- `LUDecomposition.h:209-212`: `for j in k+1..n-1: LU(i,j) -= LU(i,k) * LU(k,j)` -/
 def elimRowS (LU : Store α) (n k i : Nat) : Res (Store α) :=
   loopFrom (k + 1) n (fun j LU => do
     let x ← rd LU i j
@@ -109,7 +109,7 @@ def elimRowS (LU : Store α) (n k i : Nat) : Res (Store α) :=
     let u ← rd LU k j
     wr LU i j (x - l * u)) LU
 
-/-- `LUDecomposition.h:197-207` -/
+/-- `LUDecomposition.h:204-214` -/
 def eliminateS (LU : Store α) (m n k : Nat) : Res (Store α) := do
   let d ← rd LU k k
   if Scalar.eqb d Scalar.zero then pure LU
@@ -119,7 +119,7 @@ def eliminateS (LU : Store α) (m n k : Nat) : Res (Store α) := do
     let LU1 ← wr LU i k (a / d)
     elimRowS LU1 n k i) LU
 
-/-- one iteration of the main loop (`LUDecomposition.h:175-208`) -/
+/-- one iteration of the main loop (`LUDecomposition.h:182-215`) -/
 def stepS (k : Nat) (s : StateS α) : Res (StateS α) := do
   let p ← findPivotS s.lu s.m k
   let s1 ← (if p ≠ k then do
@@ -130,7 +130,7 @@ def stepS (k : Nat) (s : StateS α) : Res (StateS α) := do
   let lu ← eliminateS s1.lu s1.m s1.n k
   pure { s1 with lu := lu }
 
-/-- member initialisers (`LUDecomposition.h:161-173`): `LU(A)` is the converting constructor
+/-- member initialisers (`LUDecomposition.h:168-180`): `LU(A)` is the converting constructor
 `RowMatrix(const Matrix&)` (`Matrix.h:108-121`: `nr` rows resized to `nc`, every entry assigned —
 the data of `MatrixTools::copy` into an empty `RowMatrix`) -/
 def initS (A : Store α) : Res (StateS α) := do
@@ -143,7 +143,7 @@ def constructS (A : Store α) : Res (StateS α) := do
 
 /-! ## accessors -/
 
-/-- `getL` (`LUDecomposition.h:216-237`); `L_` was constructed as `RowMatrix(m, n)` and is
+/-- `getL` (`LUDecomposition.h:223-244`); `L_` was constructed as `RowMatrix(m, n)` and is
 overwritten completely -/
 def getLS (s : StateS α) : Res (Store α) :=
   loop s.m (fun i L => loop s.n (fun j L =>
@@ -153,7 +153,7 @@ def getLS (s : StateS α) : Res (Store α) :=
     else if i = j then wr L i j Scalar.one
     else wr L i j Scalar.zero) L) ((Store.empty .row).resize s.m s.n)
 
-/-- `getU` (`LUDecomposition.h:244-261`); `U_` is `RowMatrix(n, n)` -/
+/-- `getU` (`LUDecomposition.h:251-268`); `U_` is `RowMatrix(n, n)` -/
 def getUS (s : StateS α) : Res (Store α) :=
   loop s.n (fun i U => loop s.n (fun j U =>
     if i ≤ j then do
@@ -161,16 +161,16 @@ def getUS (s : StateS α) : Res (Store α) :=
       wr U i j x
     else wr U i j Scalar.zero) U) ((Store.empty .row).resize s.n s.n)
 
-/-- `det` (`LUDecomposition.h:279-291`) -/
+/-- `det` (`LUDecomposition.h:286-298`) -/
 def detS (s : StateS α) : Res α :=
   if s.m ≠ s.n then pure Scalar.zero
   else loop s.n (fun j d => do
     let x ← rd s.lu j j
     pure (d * x)) (Scalar.ofInt s.pivsign)
 
-/-! ## `solve` (`LUDecomposition.h:304-365`) -/
+/-! ## `solve` (`LUDecomposition.h:311-382`) -/
 
-/-- `LUDecomposition.h:313-319` -/
+/-- `LUDecomposition.h:320-326` -/
 def minDiagS (s : StateS α) : Res α := do
   let d0 ← rd s.lu 0 0
   loopFrom 1 s.m (fun i d => do
@@ -190,7 +190,7 @@ def permuteCopyS (B : Store α) (piv : Array Nat) (nx : Nat) (X : Store α) : Re
       let b ← rd B pi j
       wr X i j b) X) (X.resize piv.size nx)
 
-/-- `for j < nx: X(i,j) -= X(k,j) * LU(i,k)` (`LUDecomposition.h:336-339, 356-359`) -/
+/-- `for j < nx: X(i,j) -= X(k,j) * LU(i,k)` (`LUDecomposition.h:353-356, 373-376`) -/
 def axpyRowS (LU : Store α) (nx k i : Nat) (X : Store α) : Res (Store α) :=
   loop nx (fun j X => do
     let x ← rd X i j
@@ -198,18 +198,18 @@ def axpyRowS (LU : Store α) (nx k i : Nat) (X : Store α) : Res (Store α) :=
     let l ← rd LU i k
     wr X i j (x - xk * l)) X
 
-/-- "Solve L*Y = B(piv,:)" (`LUDecomposition.h:332-341`) -/
+/-- "Solve L*Y = B(piv,:)" (`LUDecomposition.h:348-358`) -/
 def fwdS (s : StateS α) (nx : Nat) (X : Store α) : Res (Store α) :=
   loop s.n (fun k X => loopFrom (k + 1) s.n (fun i X => axpyRowS s.lu nx k i X) X) X
 
-/-- `for j < nx: X(k,j) /= LU(k,k)` (`LUDecomposition.h:350-353`) -/
+/-- `for j < nx: X(k,j) /= LU(k,k)` (`LUDecomposition.h:367-370`) -/
 def divRowS (LU : Store α) (nx k : Nat) (X : Store α) : Res (Store α) :=
   loop nx (fun j X => do
     let x ← rd X k j
     let d ← rd LU k k
     wr X k j (x / d)) X
 
-/-- "Solve U*X = Y" (`LUDecomposition.h:345-362`): `k = n; do { k--; … } while (k > 0)`; for
+/-- "Solve U*X = Y" (`LUDecomposition.h:359-379`): `k = n; do { k--; … } while (k > 0)`; for
 `n = 0` the decrement wraps and `LU(k,k)` is out of range -/
 def backS (s : StateS α) (nx : Nat) (X : Store α) : Res (Store α) :=
   if s.n = 0 then .error .ub
@@ -229,7 +229,43 @@ def solveS (s : StateS α) (B X : Store α) : Res (α × Store α) :=
   let X3 ← backS s B.ncols X2
   pure (d, X3)
 
-/-! ## the `std::vector` overload (`LUDecomposition.h:63-75, 378-426`) -/
+/-- `solve(B, B)`: the right-hand side and the output are the same object.  After the `fix:` commit
+recorded in `findings/C05.json` the permuted copy is then taken from a copy `RowMatrix<Real> Bc(B)`
+(`LUDecomposition.h:336-346`); `solveSelfOrigS` below is the text before the repair. -/
+def solveSelfS (s : StateS α) (B : Store α) : Res (α × Store α) :=
+  if B.nrows ≠ s.m then .error .badInteger else do
+  let d ← minDiagS s
+  if belowThreshold d then .error .zeroDivision else do
+  let Bc ← liftMx (Mx.copy B (Store.empty .row))
+  let X1 ← permuteCopyS Bc s.piv B.ncols B
+  let X2 ← fwdS s B.ncols X1
+  let X3 ← backS s B.ncols X2
+  pure (d, X3)
+
+/-- `permuteCopy(B, piv, 0, nx-1, B)` as it was before the repair: `X(i,j) = A(piv[i], j)` reads the
+matrix that is being overwritten (the `resize` to its own shape changes nothing) -/
+def permuteCopySelfOrigS (piv : Array Nat) (nx : Nat) (X : Store α) : Res (Store α) :=
+  loop piv.size (fun i X => do
+    let pi ← vrd piv i
+    if nx = 0 then .error .ub
+    else loop nx (fun j X => do
+      let b ← rd X pi j
+      wr X i j b) X) (X.resize piv.size nx)
+
+/-- `solve(B, B)` before the repair -/
+def solveSelfOrigS (s : StateS α) (B : Store α) : Res (α × Store α) :=
+  if B.nrows ≠ s.m then .error .badInteger else do
+  let d ← minDiagS s
+  if belowThreshold d then .error .zeroDivision else do
+  let X1 ← permuteCopySelfOrigS s.piv B.ncols B
+  let X2 ← fwdS s B.ncols X1
+  let X3 ← backS s B.ncols X2
+  pure (d, X3)
+
+/-! ## the `std::vector` overload (`LUDecomposition.h:63-82, 395-443`)
+
+`solve(b, b)` (operand and output the same vector) permutes a copy of `b` since the same `fix:`
+commit (`LUDecomposition.h:65-71`): it is `solveVecS s b b`. -/
 
 /-- `permuteCopy(b, piv, x)`: `if (piv_length != A.size()) X.clear(); X.resize(piv_length)`
 (`std::vector::resize` keeps the prefix and value-initialises new elements), then every element is
